@@ -98,7 +98,9 @@ def generate(seed: int, tier: str) -> Dict[str, Any]:
             "no_turn_id": r.chance(0.06), "ctx_style": r.choice(["both", "both", "cfg_only"]),
             "read_how": r.choice(["attr", "attr", "subscript"]),
             # ... or one whose turn id is there and is None
-            "turn_id_none": r.chance(0.05)}
+            "turn_id_none": r.chance(0.05),
+            # compute phases that report the shared surface graph among the graphs they touched (a report, not a declaration)
+            "touched_shared": r.chance(0.25)}
 
 
 class _AState(dict):
@@ -130,7 +132,7 @@ class _Store:
         return {"edits": len(ds), "clamps": 0}
 
 
-def _mk_stub(spec_by_agent: Dict[str, Dict[str, Any]]):
+def _mk_stub(spec_by_agent: Dict[str, Dict[str, Any]], touched_shared: bool = False):
     def stub(self, ctx, state, text):
         # what a turn does is a function of (agent, input text): two tasks of one agent are different turns
         spec = spec_by_agent.get((str(ctx.agent_id), str(text))) or spec_by_agent[str(ctx.agent_id)]
@@ -178,7 +180,8 @@ def _mk_stub(spec_by_agent: Dict[str, Dict[str, Any]]):
         if getattr(ctx, "_dry_run_until_t4", False):
             ctx._dryrun_t4 = t4
             ctx._dryrun_utter = spec["utter"]
-            ctx._dryrun_t1 = {"graphs_touched": list(spec["graphs"])}
+            # what T1 says it touched: the agent's declared graphs, or those and the shared surface graph every commit writes to
+            ctx._dryrun_t1 = {"graphs_touched": list(spec["graphs"]) + (["g:surface"] if touched_shared else [])}
             ctx._dryrun_t2 = {"k_returned": 0, "k_used": 0}
             return types.SimpleNamespace(line=spec["utter"], events=[])
         # non-dry: commit exactly as core does
@@ -231,7 +234,7 @@ def _contract_once(p: Dict[str, Any], mode: str, limit: Optional[int], stats: Di
             if not state["agents"]:
                 del state["agents"]
             tasks = [(a["id"], a["text"]) for a in p["agents"]]
-            core.Orchestrator.run_turn = _mk_stub(spec_by_agent)
+            core.Orchestrator.run_turn = _mk_stub(spec_by_agent, bool(p.get("touched_shared")))
             saved_enable = orch.__dict__.get("enable_staging")
             drains = {"n": 0}
             try:
